@@ -430,9 +430,21 @@ func evalPrepared(c *evalCase, p *prepared) (outcome, string, error) {
 	if berr != nil {
 		return judged, "", fmt.Errorf("BuildExpr(%q) rejected a valid expression: %v", c.Text, firstLine(berr.Error()))
 	}
-	impl, implErr := safeExec(p.loc.ToCur[ctxNode], g, set...)
+	startCur := p.loc.ToCur[ctxNode]
+	viewed := len(c.Text)%7 == 3 && len(c.Funcs) == 0 && len(p.doc.All) <= 60
+	if viewed {
+		// through a user-written Cursor (fresh objects per call / an uncomparable value type)
+		startCur = viewOf(startCur, len(c.Text)/7)
+	}
+	impl, implErr := safeExec(startCur, g, set...)
 	if pe, ok := implErr.(*panicError); ok {
 		return judged, "", fmt.Errorf("Exec(%q) panicked: %v", c.Text, pe.v)
+	}
+	if viewed {
+		if implErr != nil && strings.Contains(implErr.Error(), "xpath query panic") {
+			return judged, "", fmt.Errorf("Exec(%q) from a user-written Cursor (%T) failed: %v", c.Text, startCur, implErr)
+		}
+		impl = unviewResult(impl)
 	}
 	switch {
 	case refErr != nil && implErr != nil:
